@@ -28,6 +28,9 @@ CHECKS = {
  "C08": ("count-on-paths of drains between header read and each decode-error raise, must-precede of the connected-flag clear before every ConnectionLost raise, try/handler ownership of every socket primitive, dominating-guard truth tables for the subscription filter and the size/version rejection conditions, store scan on the received objects",
          "Exactly one frame is consumed on every path of _read_message (one drain before each decode-error raise, none on success, payload read under size equality); ConnectionLost always follows _connected=False and every socket primitive converts ConnectionError; read_message returns only under the subscription filter; version/size rejections are exact; bytes are received into the returned objects.",
          "MSG_WAITALL / OS socket semantics trusted; 'server closes at every byte offset' is not enumerated, only the flag/raise discipline is decided.", "DESIGN.md §2 C08"),
+ "C02": ("abstract interpretation of the client/manager subscription functions over symbolic message types (data-independence abstraction), exhaustive BFS of the abstract (client, manager) state space; plus a syntactic mutate-while-iterating rule",
+         "Exhaustive over the abstract space: every reachable (client, manager) subscription state x every public operation x every argument list over {ALL, a, b[, c]} satisfies I1 agreement, I2 paused-not-delivered, I3 index consistency, I4 refusal under subscribe-all, I5 scoped restore. Transformers are read from the current source on every run; uses of message types other than ==/in abort the analysis.",
+         "Sound for the set semantics under the data-independence argument (types only compared for equality/membership - enforced). Assumes in-order one-at-a-time processing of control frames (C05/C19). List-position effects inside an argument list are covered by interpreting lists with CPython index semantics up to length 3.", "DESIGN.md §2 C02"),
 }
 
 NOT_YET = "check not built yet (build phase in progress)"
